@@ -32,11 +32,14 @@ func init() {
 			"positions whose schema entry is a StringType; with no schema it hashes the raw bytes of a string, so 'a' and 'A' under a case-insensitive collation get different keys " +
 			"although '=' makes them equal. Decided: (H1) for every call that resolves to sql/hash.HashOf in the loaded engine packages, the schema operand is not the nil constant " +
 			"(SSA constant, also through phis) - each nil-schema site is a violation unless it is a named row-identity use; (H3) the mechanism itself: HashOf writes string positions " +
-			"through CollationID.WriteWeightString into the digest it returns, and HashOfSimple returns CollationID.HashToUint for text types.",
+			"through CollationID.WriteWeightString into the digest it returns, and HashOfSimple returns CollationID.HashToUint for text types. " +
+			"(H4) numeric text is canonicalised only behind the decimal point: every call of the hash package that strips trailing '0' characters from a string is guarded by a test that the string contains '.', and no stripped cutset holds both '0' and '.' - otherwise 10, 100 and 1000 (or 10.0 and 1) get one key, and every consumer that decides equality from the key alone (hash IN, DISTINCT, grouping) identifies different numbers.",
 		NotCovered: "numeric representation equality (1 vs 1.0), hash collisions, schemas that are non-nil but carry the wrong types, hashing operators that do not go through sql/hash at all, the weight tables themselves (C29)",
 		Technique:  "SSA dataflow: constant-nil operand of every resolved call site + callee/argument links inside the hashing kernel",
 		Run: func(c *Ctx) {
 			runC07(c, c07Config{HashRel: "sql/hash", HashOf: "HashOf", Simple: "HashOfSimple", SqlRel: "sql", CollType: "CollationID", Weight: "WriteWeightString", HashTo: "HashToUint", Floors: [2]int{18, 2}})
+			c.Rule("C07-H4", "numeric text is canonicalised only behind the decimal point: every call in the hash package that strips trailing '0' characters from a string is guarded by a test that the string contains '.'", 1)
+			ruleZeroTrimGuarded(c, "C07-H4", []string{"sql/hash"})
 		},
 		Fixture: func(c *Ctx, fx *Prog) {
 			expectFixture(c, fx, "c07: nil schema literal, nil schema through a variable, kernel without weight strings",
@@ -44,8 +47,11 @@ func init() {
 				func(fc *Ctx) {
 					runC07(fc, c07Config{HashRel: "testdata/c07/hash", HashOf: "HashOf", SqlRel: "testdata/c07/hash", CollType: "CollationID", Weight: "WriteWeightString"})
 				})
+			expectFixture(c, fx, "c07 trim: zeros stripped without a decimal-point test, and with a cutset that holds the point",
+				[]string{"C07-H4:Unguarded/TrimRight(s)", "C07-H4:Mixed/TrimRight(s)"},
+				func(fc *Ctx) { ruleZeroTrimGuarded(fc, "C07-H4", []string{"testdata/c07/trim"}) })
 		},
-		FixturePkgs: []string{"./testdata/c07/hash", "./testdata/c07/ops"},
+		FixturePkgs: []string{"./testdata/c07/hash", "./testdata/c07/ops", "./testdata/c07/trim"},
 	})
 }
 
